@@ -6,6 +6,8 @@ import QG.Lemmas.Frames
 import QG.Lemmas.FrameInvariant
 import QG.Lemmas.LayerSim
 import QG.Lemmas.GridSim
+import QG.Lemmas.LayerBridge
+import QG.Props.C01
 
 /-!
 # C03 — with noise switched off the simulator reproduces the ideal circuit
@@ -34,7 +36,11 @@ simulator issues for a circuit are C08.
 (`rowOrdered_callsLayered`), a row-ordered call list drives the layered machine and the index-based machine to related
 states (`QG.Lemmas.LayerSim.run_sim`: same phases, and the layers read with a qubit offset — the `layersItems` of C01 —
 are the registered item list), so the frame invariant transfers.  That every layer-based backend applies exactly the
-product of those items is C01 (`standard_spec`, `efficient_spec`, `ones_spec`, `binary_layer_spec`).
+product of those items is C01 (`standard_spec`, `efficient_spec`, `ones_spec`, `binary_layer_spec`), and the two are joined
+formally: `QG.Lemmas.LayerBridge.layers_bridge` (the shape invariant `Segs` carried by the simulation relation is C01's
+well-formedness, and C01's `layersItems` of the object's layers is C03's `allItems`) gives `layers_admissible`,
+`noise_free_layers_spec` and, per backend, `noise_free_standard_backend` / `noise_free_efficient_backend` /
+`noise_free_ones_backend`: what the backend returns on the layers of a noise-free run has the ideal moduli.
 
 `noise_free_run_spec_grid` / `noise_free_pipeline_grid` — the same for the legacy fixed-depth `Circuit` class (a grid of
 columns, a new column opened lazily; `QG.Lemmas.GridSim`), for whatever depth the run is given, provided the run returns
@@ -505,6 +511,100 @@ theorem noise_free_pipeline_layered (n : Nat) (hn : 0 < n) (data : List (Op ℝ)
   refine ⟨?_, noise_free_run_spec_layered n hn _ (wf_callsLayered n data hwf) hrow st' h ψ0 x⟩
   obtain ⟨_, _, _, hs⟩ := run_sim P n _ (LayerState.init P n) st' (BinState.init P n) (rel_init P n hn) hrow h
   rw [hs]; exact hend
+
+/-! ## the layers handed to the layer-based backends
+
+`QG.Lemmas.LayerBridge`: the shape invariant of the layered machine (`Segs`: every layer is made of the segments `[I]`,
+`[M₂]`, `[G₄, 1]`, `[1, G₄]`) is the well-formedness of C01, and C01's reading of the layers of matrices (`layersItems`) is
+the item list of the object.  So C01's theorems apply to the object's layers, and the chain "circuit → issued calls →
+layers → backend result" closes formally: **what each layer-based backend returns on the layers of a noise-free run has the
+moduli of the ideal circuit's amplitudes**. -/
+
+open QG.Lemmas.LayerSim QG.Lemmas.LayerBridge QG.Model.Backend in
+/-- the completed layers of the object as lists of matrices and placeholders (tokens replaced by the matrices of the
+noise-free gate set), oldest first: what `statevector` hands to the backend -/
+noncomputable def layersL (st : LayerState ℝ) : List (Layer (Mat ℂ)) := layersOf frameSys st
+
+section Backends
+open QG.Lemmas.LayerSim QG.Lemmas.LayerBridge QG.Model.Backend QG.Lemmas.Backend
+open Classical
+
+/-- the layers of a pipeline run are in the domain of C01 -/
+theorem layers_admissible (n : Nat) (hn : 0 < n) (data : List (Op ℝ)) (hwf : ∀ op ∈ data, LWF' n op)
+    (st' : LayerState ℝ) (h : foldE (LayerState.step P) (LayerState.init P n) (callsLayered n data) = .ok st')
+    (hne : st'.mpList ≠ []) (ψ : Array ℂ) (hψ : ψ.size = 2 ^ n) :
+    QG.C01.Admissible n (layersL st') ψ := by
+  have hl : ∀ op ∈ data, LWF n op := by
+    intro op hop
+    have := hwf op hop
+    cases op <;> first | exact this | trivial
+  obtain ⟨hrow, hend⟩ := rowOrdered_callsLayered n data hl
+  obtain ⟨b', _, hr, hs⟩ := run_sim P n _ (LayerState.init P n) st' (BinState.init P n) (rel_init P n hn) hrow h
+  obtain ⟨hw, _⟩ := layers_bridge frameSys n st' b' hr (by rw [hs]; exact hend)
+  refine ⟨hn, ?_, ?_, hψ⟩
+  · simpa [layersL, layersOf] using hne
+  · intro l hl
+    obtain ⟨h1, h2⟩ := hw l hl
+    simp only [Layer.wf, Bool.and_eq_true, beq_iff_eq]
+    exact ⟨wfBlocks_of_wfi l h1, h2⟩
+
+/-- **C03 on the layers, as C01 specifies the backends**: the layered Kronecker product of the object's layers, applied
+to any input vector, has at every flat index the modulus of the ideal circuit's amplitude -/
+theorem noise_free_layers_spec (n : Nat) (hn : 0 < n) (data : List (Op ℝ)) (hwf : ∀ op ∈ data, LWF' n op)
+    (st' : LayerState ℝ) (h : foldE (LayerState.step P) (LayerState.init P n) (callsLayered n data) = .ok st')
+    (ψ : Array ℂ) (i : Nat) (hi : i < 2 ^ n) :
+    ‖vfn (specApply n (layersL st') ψ) i‖ =
+      ‖flatOf (trueOps n (callsLayered n data) (vecOf ψ.toList)) i‖ := by
+  have hl : ∀ op ∈ data, LWF n op := by
+    intro op hop
+    have := hwf op hop
+    cases op <;> first | exact this | trivial
+  obtain ⟨hrow, hend⟩ := rowOrdered_callsLayered n data hl
+  obtain ⟨b', _, hr, hs⟩ := run_sim P n _ (LayerState.init P n) st' (BinState.init P n) (rel_init P n hn) hrow h
+  obtain ⟨hw, hitems⟩ := layers_bridge frameSys n st' b' hr (by rw [hs]; exact hend)
+  rw [vfn_specApply n _ ψ i hi]
+  have h1 := sem_layers (layersL st') hw (vecOf ψ.toList : State ℂ n) i hi
+  have h2 : specFn n (layersL st') (flatOf (vecOf ψ.toList : State ℂ n)) i = specFn n (layersL st') (vfn ψ) i :=
+    specFn_congr' n _ _ _ (fun j hj => flatOf_vecOf ψ j hj) i hi
+  rw [← h2, ← h1]
+  have h3 := (noise_free_pipeline_layered n hn data hwf st' h (vecOf ψ.toList) (bitsFn n i)).2
+  unfold simOpL at h3
+  show ‖((gateAlgebra ℂ n).sem (layersItems (layersL st')) (vecOf ψ.toList)) (bitsFn n i)‖ = _
+  rw [show layersItems (layersL st') = (allItems st').map (interp frameSys) from hitems]
+  exact h3
+
+/-- … hence `StandardBackend.statevector` on the layers of a noise-free `StandardCircuit` -/
+theorem noise_free_standard_backend (n : Nat) (hn : 0 < n) (data : List (Op ℝ)) (hwf : ∀ op ∈ data, LWF' n op)
+    (st' : LayerState ℝ) (h : foldE (LayerState.step P) (LayerState.init P n) (callsLayered n data) = .ok st')
+    (hne : st'.mpList ≠ []) (ψ : Array ℂ) (hψ : ψ.size = 2 ^ n) :
+    ∃ out, standard (dictOf ℂ) n (layersL st') ψ = .ok out ∧
+      ∀ i < 2 ^ n, ‖vfn out i‖ = ‖flatOf (trueOps n (callsLayered n data) (vecOf ψ.toList)) i‖ :=
+  ⟨_, QG.C01.standard_spec n _ ψ (layers_admissible n hn data hwf st' h hne ψ hψ),
+    fun i hi => noise_free_layers_spec n hn data hwf st' h ψ i hi⟩
+
+/-- … `EfficientBackend.statevector` (every chunk setting inside the code's own limit of contraction letters) on the layers
+of a noise-free `EfficientCircuit` -/
+theorem noise_free_efficient_backend (n mn op : Nat) (hn : 0 < n) (data : List (Op ℝ)) (hwf : ∀ op ∈ data, LWF' n op)
+    (st' : LayerState ℝ) (h : foldE (LayerState.step P) (LayerState.init P n) (callsLayered n data) = .ok st')
+    (hne : st'.mpList ≠ []) (ψ : Array ℂ) (hψ : ψ.size = 2 ^ n)
+    (hop : 1 ≤ op) (hlegs : n < 4 ∨ n < 2 * op ∨ numOperands n mn op ≤ 13) :
+    ∃ out, efficient (dictOf ℂ) n mn op (layersL st') ψ = .ok out ∧
+      ∀ i < 2 ^ n, ‖vfn out i‖ = ‖flatOf (trueOps n (callsLayered n data) (vecOf ψ.toList)) i‖ :=
+  ⟨_, QG.C01.efficient_spec n mn op _ ψ (layers_admissible n hn data hwf st' h hne ψ hψ) hop hlegs,
+    fun i hi => noise_free_layers_spec n hn data hwf st' h ψ i hi⟩
+
+/-- … and `BackendForOnes.statevector` (at most 26 matrices per layer, the code's own assertion) on the layers of a
+noise-free `OneCircuit` -/
+theorem noise_free_ones_backend (n : Nat) (hn : 0 < n) (data : List (Op ℝ)) (hwf : ∀ op ∈ data, LWF' n op)
+    (st' : LayerState ℝ) (h : foldE (LayerState.step P) (LayerState.init P n) (callsLayered n data) = .ok st')
+    (hne : st'.mpList ≠ []) (ψ : Array ℂ) (hψ : ψ.size = 2 ^ n)
+    (hlegs : ∀ l ∈ layersL st', QG.C01.numMats l ≤ 26) :
+    ∃ out, ones (dictOf ℂ) n (layersL st') ψ = .ok out ∧
+      ∀ i < 2 ^ n, ‖vfn out i‖ = ‖flatOf (trueOps n (callsLayered n data) (vecOf ψ.toList)) i‖ :=
+  ⟨_, QG.C01.ones_spec n _ ψ (layers_admissible n hn data hwf st' h hne ψ hψ) hlegs,
+    fun i hi => noise_free_layers_spec n hn data hwf st' h ψ i hi⟩
+
+end Backends
 
 /-! ## the legacy fixed-depth class `Circuit` (a grid of columns)
 
